@@ -1630,7 +1630,10 @@ impl VectorEngine {
                 // anything else is left to the exhaustive path, which skips vectors
                 // of another dimension.
                 let same_dim = index.get_vector(0).is_some_and(|v| v.len() == query.len());
-                if !mapping.is_empty() && same_dim {
+                // ... and scores of the metric it was built with: an index of another metric
+                // than the collection's would report scores of the wrong kind.
+                let same_metric = Self::index_metric_matches(index, metric);
+                if !mapping.is_empty() && same_dim && same_metric {
                     let neighbors = index.search(query, top_k);
                     let mut results: Vec<SearchResult> = neighbors
                         .into_iter()
@@ -1991,7 +1994,10 @@ impl VectorEngine {
                 // anything else is left to the exhaustive path, which skips vectors
                 // of another dimension.
                 let same_dim = index.get_vector(0).is_some_and(|v| v.len() == query.len());
-                if !mapping.is_empty() && same_dim {
+                // search_similar reports cosine similarity; an index built with another
+                // metric (build_and_cache_index takes any HNSWConfig) is not consulted.
+                let same_metric = Self::index_metric_matches(index, DistanceMetric::Cosine);
+                if !mapping.is_empty() && same_dim && same_metric {
                     let neighbors = index.search(query, top_k);
                     // The mapping holds user keys (build_hnsw_index takes them from
                     // list_keys, which already removed the storage prefix).
@@ -2243,6 +2249,23 @@ impl VectorEngine {
     }
 
     /// Compute score based on the distance metric.
+    /// Whether a cached index reports scores of the given metric.
+    fn index_metric_matches(index: &HNSWIndex, metric: DistanceMetric) -> bool {
+        matches!(
+            (index.config().distance_metric, metric),
+            (
+                tensor_store::HNSWDistanceMetric::Cosine,
+                DistanceMetric::Cosine
+            ) | (
+                tensor_store::HNSWDistanceMetric::Euclidean,
+                DistanceMetric::Euclidean
+            ) | (
+                tensor_store::HNSWDistanceMetric::DotProduct,
+                DistanceMetric::DotProduct
+            )
+        )
+    }
+
     fn compute_score(
         query: &[f32],
         stored: &[f32],
